@@ -506,6 +506,351 @@ theorem reported_integral_scale_special (p : Par ℝ) (hl : 0 < p.lenScale) (hs 
       rw [mul_assoc, hpi]
     rw [this]; ring
 
+/-! ## tools/special.py: the plumbing of the exponential-integral families -/
+
+/-- integer-order shortcut of `exp_int`: the order handed to `scipy.special.expn` is THE integer nearest to `s`,
+    it is non-negative, and `s` lies within the `np.isclose` band of it -/
+theorem expIntPlan_expn_spec (s : ℝ) (n : ℤ) (h : expIntPlan s = .expn n) :
+    n = round s ∧ |s - n| ≤ 1e-8 + 1e-5 * |(n:ℝ)| ∧ 0 ≤ n ∧ |s - n| ≤ 1 / 2 := by
+  unfold expIntPlan at h
+  split_ifs at h with h1 h2
+  simp only [Bool.and_eq_true, decide_eq_true_eq, around_real] at h2
+  obtain ⟨hc, hs⟩ := h2
+  have hn : round s = n := by injection h
+  subst hn
+  rw [iscloseTo_iff] at hc
+  refine ⟨rfl, hc, ?_, abs_sub_round s⟩
+  rw [round_eq]
+  exact Int.floor_nonneg.mpr (by norm_num at hs ⊢; linarith)
+
+/-- conversely: an order inside the `np.isclose` band of an integer `m ≥ 0` (other than the `exp1` band around 1)
+    is evaluated as `expn(m, ·)` — never as a neighbouring integer order -/
+theorem expIntPlan_of_integer_close (s : ℝ) (m : ℤ) (hm : |s - m| ≤ 1e-8 + 1e-5 * |(m:ℝ)|)
+    (hbig : |(m:ℝ)| ≤ 40000) (h1 : ¬ |s - 1| ≤ 1e-8 + 1e-5) (hs : -(0.5:ℝ) < s) :
+    expIntPlan s = .expn m := by
+  have hr : round s = m := round_eq_of_abs_sub_lt (by
+    calc |s - m| ≤ 1e-8 + 1e-5 * |(m:ℝ)| := hm
+      _ ≤ 1e-8 + 1e-5 * 40000 := by gcongr
+      _ < 1 / 2 := by norm_num)
+  unfold expIntPlan
+  have c1 : iscloseTo s (1:ℝ) = false := by
+    rw [iscloseTo_false_iff]; simpa using h1
+  have c2 : iscloseTo s (((HasRound.around s : ℤ)) : ℝ) = true := by
+    rw [iscloseTo_iff, around_real, hr]; exact hm
+  rw [around_real, hr] at c2
+  simp [c1, c2, hs, hr]
+
+/-- exact integer orders `m ≥ 2` -/
+theorem expIntPlan_int (m : ℤ) (hm : 2 ≤ m) (hbig : m ≤ 40000) : expIntPlan ((m:ℤ):ℝ) = .expn m := by
+  have h2 : (2:ℝ) ≤ m := by exact_mod_cast hm
+  have h4 : (m:ℝ) ≤ 40000 := by exact_mod_cast hbig
+  apply expIntPlan_of_integer_close
+  · simp; positivity
+  · rw [abs_of_nonneg (by linarith)]; exact h4
+  · rw [abs_of_nonneg (by linarith)]; norm_num; linarith
+  · linarith
+
+/-- `G(·, x)` satisfies the recurrence of the upper incomplete gamma function:
+    `Γ(a + 1, x) = a Γ(a, x) + x^a e^{-x}` -/
+def GammaRec (G : ℝ → ℝ → ℝ) (x : ℝ) : Prop := ∀ a : ℝ, G (a + 1) x = a * G a x + x ^ a * Real.exp (-x)
+
+/-- the scipy primitives return the values of `G` at `x`: `gamma(a) gammaincc(a, x) = Γ(a, x)` for `a ≥ 0`,
+    `exp1(x) = Γ(0, x)`, `x^{1-n} expn(n, x) = Γ(1 - n, x)` -/
+structure PrimsExact (P : Prims ℝ) (G : ℝ → ℝ → ℝ) (x : ℝ) : Prop where
+  gammaQ : ∀ a : ℝ, 0 ≤ a → P.gammaQ a x = G a x
+  exp1 : P.exp1 x = G 0 x
+  expn : ∀ n : ℤ, 1 ≤ n → x ^ ((1:ℝ) - n) * P.expn n x = G (1 - n) x
+
+/-- no shortcut of `inc_gamma` fires on `s`, `s + 1`, `s + 2`, …: none of them is within `1e-8` of `0` or inside the
+    `np.isclose` band of an integer below `-0.5` -/
+def NoSnap (s : ℝ) : Prop :=
+  ∀ k : ℕ, ¬ |s + k| ≤ 1e-8 ∧
+    ¬ (|s + k - round (s + k)| ≤ 1e-8 + 1e-5 * |((round (s + k) : ℤ) : ℝ)| ∧ s + k < -(0.5:ℝ))
+
+theorem NoSnap.succ {s : ℝ} (h : NoSnap s) : NoSnap (s + 1) := by
+  intro k
+  have := h (k + 1)
+  push_cast at this
+  rw [show s + 1 + (k:ℝ) = s + ((k:ℝ) + 1) by ring]
+  exact this
+
+theorem incGammaPlan_step (fuel : ℕ) (s : ℝ) (h : NoSnap s) :
+    incGammaPlan (fuel + 1) s = if s < 0 then .down s (incGammaPlan fuel (s + 1)) else .gammaQ s := by
+  have h0 := h 0
+  simp only [Nat.cast_zero, add_zero] at h0
+  have c1 : iscloseTo s (0:ℝ) = false := by
+    rw [iscloseTo_false_iff]; simpa using h0.1
+  have c2 : (iscloseTo s ((round s : ℤ) : ℝ) && decide (s < -(0.5:ℝ))) = false := by
+    by_contra hc
+    simp only [Bool.not_eq_false, Bool.and_eq_true, decide_eq_true_eq] at hc
+    exact h0.2 ⟨(iscloseTo_iff _ _).mp hc.1, hc.2⟩
+  simp only [incGammaPlan, around_real, Nat.cast_zero, Nat.cast_one, c1, c2, Bool.false_eq_true, if_false]
+
+/-- `inc_gamma(s, x)` is `Γ(s, x)`: off the shortcut bands the recursion to a base in `[0, 1)` reproduces the function
+    the primitives compute, for every order `s > -fuel` -/
+theorem incGamma_correct (P : Prims ℝ) (G : ℝ → ℝ → ℝ) (x : ℝ) (hrec : GammaRec G x) (hP : PrimsExact P G x) :
+    ∀ (fuel : ℕ) (s : ℝ), -(fuel:ℝ) < s → NoSnap s → incGamma P (fuel + 1) s x = some (G s x) := by
+  intro fuel
+  induction fuel with
+  | zero =>
+    intro s hs hn
+    have hs0 : ¬ s < 0 := by simpa using hs.le
+    simp only [incGamma, incGammaPlan_step 0 s hn, if_neg hs0, evalG]
+    rw [hP.gammaQ s (by simpa using hs.le)]
+  | succ fuel ih =>
+    intro s hs hn
+    simp only [incGamma, incGammaPlan_step (fuel + 1) s hn]
+    by_cases h0 : s < 0
+    · have hs1 : -(fuel:ℝ) < s + 1 := by push_cast at hs; linarith
+      have := ih (s + 1) hs1 hn.succ
+      simp only [incGamma] at this
+      simp only [if_pos h0, evalG, this, Option.map_some, rpow_real, exp_real]
+      congr 1
+      rw [hrec s]
+      field_simp [h0.ne]
+      ring
+    · simp only [if_neg h0, evalG]
+      rw [hP.gammaQ s (not_lt.mp h0)]
+
+/-- at a non-positive integer order the code uses `Γ(-m, x) = x^{-m} E_{m+1}(x)` -/
+theorem incGamma_nonpos_int (P : Prims ℝ) (G : ℝ → ℝ → ℝ) (x : ℝ) (hP : PrimsExact P G x) (m : ℕ) (fuel : ℕ) :
+    incGamma P (fuel + 1) (-(m:ℝ)) x = some (G (-(m:ℝ)) x) := by
+  rcases Nat.eq_zero_or_pos m with rfl | hm
+  · have c1 : iscloseTo (0:ℝ) (0:ℝ) = true := by rw [iscloseTo_iff]; norm_num
+    simp [incGamma, incGammaPlan, c1, evalG, hP.exp1]
+  · have hm1 : (1:ℝ) ≤ m := by exact_mod_cast hm
+    have c1 : iscloseTo (-(m:ℝ)) (0:ℝ) = false := by
+      rw [iscloseTo_false_iff]; simp only [sub_zero, abs_neg, abs_zero, mul_zero, add_zero, not_le]
+      rw [abs_of_nonneg (by linarith)]; linarith
+    have hr : round (-(m:ℝ)) = -(m:ℤ) := by
+      have : (-(m:ℝ)) = ((-(m:ℤ) : ℤ) : ℝ) := by push_cast; ring
+      rw [this, round_intCast]
+    have c2 : iscloseTo (-(m:ℝ)) (((-(m:ℤ)) : ℤ) : ℝ) = true := by
+      rw [iscloseTo_iff]; push_cast; simp; positivity
+    have c3 : (-(m:ℝ)) < -(0.5:ℝ) := by linarith
+    have := hP.expn ((m:ℤ) + 1) (by omega)
+    push_cast at this
+    simp only [incGamma, incGammaPlan, around_real, hr, Nat.cast_zero, c1, c2, c3, Bool.false_eq_true, if_false,
+      Bool.true_and, decide_true, if_true, evalG, rpow_real]
+    rw [← show (1:ℝ) - ((m:ℝ) + 1) = -(m:ℝ) by ring]
+    have e : (1 - -(m:ℤ)) = ((m:ℤ) + 1) := by ring
+    rw [e]
+    exact congrArg some (by simpa using this)
+
+/-- integer-order branch of `exp_int`: the value is `expn(n, x)` for every `x` -/
+theorem expInt_expn (P : Prims ℝ) (fuel : ℕ) (s x : ℝ) (n : ℤ) (h : expIntPlan s = .expn n) :
+    expInt P fuel s x = .ok (P.expn n x) := by
+  simp [expInt, h]
+
+/-- general branch of `exp_int` on a regular argument: `E_s(x) = x^{s-1} Γ(1 - s, x)` with the `Γ` the primitives
+    compute -/
+theorem expInt_general_fin (P : Prims ℝ) (G : ℝ → ℝ → ℝ) (x : ℝ) (hrec : GammaRec G |x|) (hP : PrimsExact P G |x|)
+    (fuel : ℕ) (s : ℝ) (hplan : expIntPlan s = .general) (hcls : expIntClass s x = .fin)
+    (hf : -(fuel:ℝ) < 1 - s) (hn : NoSnap (1 - s)) :
+    expInt P (fuel + 1) s x = .ok (G (1 - s) |x| * |x| ^ (s - 1)) := by
+  have := incGamma_correct P G |x| hrec hP fuel (1 - s) hf hn
+  simp only [expInt, hplan, hcls, fabs_real, Nat.cast_one, this, rpow_real]
+
+/-! affine expansion used by the harness -/
+
+theorem aff_eval_const (E : ℝ → ℝ → ℝ) (c : ℝ) : Aff.eval E ((affAlg (α := ℝ)).const c) = c := by
+  simp [affAlg, Aff.eval]
+
+theorem aff_eval_E (E : ℝ → ℝ → ℝ) (s x : ℝ) : Aff.eval E ((affAlg (α := ℝ)).E s x) = E s x := by
+  simp [affAlg, Aff.eval]
+
+theorem aff_eval_smul (E : ℝ → ℝ → ℝ) (a : ℝ) (f : Aff ℝ) :
+    Aff.eval E ((affAlg (α := ℝ)).smul a f) = a * Aff.eval E f := by
+  obtain ⟨c, ts⟩ := f
+  simp only [affAlg, Aff.eval_eq, List.map_map]
+  induction ts with
+  | nil => simp
+  | cons t ts ih =>
+    simp only [List.map_cons, List.sum_cons, Function.comp_apply] at ih ⊢
+    linarith
+
+theorem aff_eval_sdiv (E : ℝ → ℝ → ℝ) (d : ℝ) (f : Aff ℝ) :
+    Aff.eval E ((affAlg (α := ℝ)).sdiv f d) = Aff.eval E f / d := by
+  obtain ⟨c, ts⟩ := f
+  simp only [affAlg, Aff.eval_eq, List.map_map]
+  induction ts with
+  | nil => simp
+  | cons t ts ih =>
+    simp only [List.map_cons, List.sum_cons, Function.comp_apply] at ih ⊢
+    rw [show c / d + (t.1 / d * E t.2.1 t.2.2 + (List.map ((fun t => t.1 * E t.2.1 t.2.2) ∘ fun t => (t.1 / d, t.2)) ts).sum)
+        = (c / d + (List.map ((fun t => t.1 * E t.2.1 t.2.2) ∘ fun t => (t.1 / d, t.2)) ts).sum) + t.1 * E t.2.1 t.2.2 / d by ring,
+      ih]
+    ring
+
+theorem aff_eval_sub (E : ℝ → ℝ → ℝ) (f g : Aff ℝ) :
+    Aff.eval E ((affAlg (α := ℝ)).sub f g) = Aff.eval E f - Aff.eval E g := by
+  obtain ⟨c, ts⟩ := f
+  obtain ⟨c', ts'⟩ := g
+  simp only [affAlg, Aff.eval_eq, List.map_append, List.sum_append, List.map_map]
+  have : (List.map ((fun t => t.1 * E t.2.1 t.2.2) ∘ fun t => (-t.1, t.2)) ts').sum
+      = -(List.map (fun t => t.1 * E t.2.1 t.2.2) ts').sum := by
+    induction ts' with
+    | nil => simp
+    | cons t ts ih => simp only [List.map_cons, List.sum_cons, Function.comp_apply] at ih ⊢; rw [ih]; ring
+  rw [this]; ring
+
+/-- the harness evaluates `tplstable_cor` as `const + Σ coef · exp_int(s, x)`: that is the model's function -/
+theorem tplstableCor_aff (E : ℝ → ℝ → ℝ) (r len hurst alpha : ℝ) :
+    Aff.eval E (tplstableCorG affAlg r len hurst alpha) = tplstableCorG (totalAlg E) r len hurst alpha := by
+  unfold tplstableCorG
+  dsimp only
+  split_ifs
+  · rw [aff_eval_const]; rfl
+  · rw [aff_eval_smul, aff_eval_E]; rfl
+
+theorem integralCor_aff (E : ℝ → ℝ → ℝ) (nu h : ℝ) :
+    Aff.eval E (integralCorG affAlg nu h) = integralCorG (totalAlg E) nu h := by
+  unfold integralCorG
+  rw [aff_eval_smul, aff_eval_E]; rfl
+
+theorem tplCorrelation_aff (E : ℝ → ℝ → ℝ) (lenScale lenLow rescale hurst alpha r : ℝ) :
+    Aff.eval E (tplCorrelationG affAlg lenScale lenLow rescale hurst alpha r)
+      = tplCorrelationG (totalAlg E) lenScale lenLow rescale hurst alpha r := by
+  unfold tplCorrelationG
+  dsimp only
+  split_ifs with h
+  · exact tplstableCor_aff E _ _ _ _
+  · rw [aff_eval_sdiv, aff_eval_sub, aff_eval_smul, aff_eval_smul, tplstableCor_aff, tplstableCor_aff]; rfl
+
+
+/-! ## derived scales after in-place parameter changes -/
+
+/-- what the setters accept for the parameters the integral scale depends on -/
+def OpAdmissible : MOp ℝ → Prop
+  | .setLenScale v => 0 < v
+  | .setRescale v => 0 < v
+  | .setIntegralScale I => 0 < I
+  | _ => True
+
+structure MAdmissible (st : MState ℝ) : Prop where
+  lenScale : 0 < st.par.lenScale
+  rescale : 0 < st.par.rescale
+
+theorem mstep_admissible (ci : ℕ → ℝ → ℝ) (hpos : ∀ d a, 0 < ci d a) (st : MState ℝ) (op : MOp ℝ)
+    (hst : MAdmissible st) (hop : OpAdmissible op) : MAdmissible (mstep ci st op) := by
+  obtain ⟨hl, hr⟩ := hst
+  cases op <;> simp only [mstep, OpAdmissible] at hop ⊢ <;> try exact ⟨by assumption, by assumption⟩
+  case setIntegralScale I =>
+    refine ⟨?_, hr⟩
+    simp only [setIntegralScale, integralScale, lenRescaled]
+    have := hpos st.dim st.shape
+    push_cast
+    positivity
+
+theorem mrun_admissible (ci : ℕ → ℝ → ℝ) (hpos : ∀ d a, 0 < ci d a) (ops : List (MOp ℝ)) :
+    ∀ st : MState ℝ, MAdmissible st → (∀ op ∈ ops, OpAdmissible op) → MAdmissible (mrun ci st ops) := by
+  induction ops with
+  | nil => intro st h _; exact h
+  | cons op ops ih =>
+    intro st h hops
+    simp only [mrun, List.foldl_cons]
+    exact ih _ (mstep_admissible ci hpos st op h (hops op (by simp))) (fun o ho => hops o (by simp [ho]))
+
+/-- After ANY admissible sequence of in-place changes (optional argument, dimension, len_scale, rescale, var, nugget,
+    anis, prescribed integral scale) the reported integral scale is the integral over all lags of the correlation of
+    the CURRENT parameters — the value a freshly built model with these parameters reports.  `K d a` is the `cor` of
+    the class in dimension `d` with optional argument `a`, `ci d a` its integral. -/
+theorem history_integral_scale (K : ℕ → ℝ → ℝ → ℝ) (ci : ℕ → ℝ → ℝ)
+    (hci : ∀ d a, ci d a = ∫ h in Ioi (0:ℝ), K d a h) (hpos : ∀ d a, 0 < ci d a)
+    (st : MState ℝ) (hst : MAdmissible st) (ops : List (MOp ℝ)) (hops : ∀ op ∈ ops, OpAdmissible op) :
+    reportedIS ci (mrun ci st ops)
+      = ∫ r in Ioi (0:ℝ), (fromCor (mrun ci st ops).par
+          (K (mrun ci st ops).dim (mrun ci st ops).shape)).correlation r := by
+  obtain ⟨hl, hr⟩ := mrun_admissible ci hpos ops st hst hops
+  rw [integral_scale_scaling _ _ hl hr, ← hci]
+  rfl
+
+/-- `integral_scale_vec` after any history: the integral of the current correlation times `(1, anis…)` -/
+theorem history_integral_scale_vec (ci : ℕ → ℝ → ℝ) (st : MState ℝ) (ops : List (MOp ℝ)) :
+    reportedISVec ci (mrun ci st ops)
+      = reportedIS ci (mrun ci st ops) :: (mrun ci st ops).anis.map fun a => reportedIS ci (mrun ci st ops) * a := rfl
+
+/-- whatever happened before, prescribing the integral scale makes it the reported one (and later changes of `var`,
+    `nugget`, `anis` keep it) -/
+theorem history_setter (ci : ℕ → ℝ → ℝ) (hpos : ∀ d a, 0 < ci d a) (st : MState ℝ) (hst : MAdmissible st)
+    (ops : List (MOp ℝ)) (hops : ∀ op ∈ ops, OpAdmissible op) (I : ℝ) :
+    reportedIS ci (mrun ci st (ops ++ [.setIntegralScale I])) = I := by
+  obtain ⟨_, hr⟩ := mrun_admissible ci hpos ops st hst hops
+  simp only [mrun, List.foldl_append, List.foldl_cons, List.foldl_nil, mstep, reportedIS]
+  exact integral_scale_setter (fun q => integralScale q (ci _ _)) (ci _ _) (hpos _ _).ne' (fun q => rfl) _ hr.ne' I
+
+/-- a change of the optional argument alone changes the reported integral scale by the ratio of the integrals of
+    `cor` (a memoised value would not) -/
+theorem history_shape_change (ci : ℕ → ℝ → ℝ) (st : MState ℝ) (a : ℝ) :
+    reportedIS ci (mstep ci st (.setShape a)) = lenRescaled st.par * ci st.dim a := rfl
+
+example : MAdmissible ⟨⟨2, 3, 0.5, 1.5⟩, 2, 1.5, [0.5]⟩ := ⟨by norm_num, by norm_num⟩
+example : ∀ op ∈ [MOp.setShape (2:ℝ), .setDim 3 [1, 0.5], .setLenScale 4, .setIntegralScale 0.7, .setVar 3],
+    OpAdmissible op := by
+  intro op h
+  simp only [List.mem_cons, List.not_mem_nil, or_false] at h
+  rcases h with rfl | rfl | rfl | rfl | rfl <;> norm_num [OpAdmissible]
+
+
+
+/-! the hypotheses of the special-function theorems are satisfiable by non-trivial objects -/
+
+example : expIntPlan (4:ℝ) = .expn 4 := by simpa using expIntPlan_int 4 (by norm_num) (by norm_num)
+/-- an order a rounding error (or up to `1e-5` relative) BELOW the integer is still evaluated as that integer order -/
+example : expIntPlan ((4:ℝ) - 1e-6) = .expn 4 := by
+  have := expIntPlan_of_integer_close ((4:ℝ) - 1e-6) 4 (by norm_num [abs_of_pos]) (by norm_num)
+    (by rw [abs_of_pos] <;> norm_num) (by norm_num)
+  simpa using this
+
+theorem noSnap_neg_three_halves : NoSnap (-(3/2:ℝ)) := by
+  intro k
+  rcases Nat.lt_or_ge k 2 with hk | hk
+  · interval_cases k
+    · have hr : round (-(3/2:ℝ) + ((0:ℕ):ℝ)) = -1 := by
+        rw [round_eq_iff]; constructor <;> norm_num
+      refine ⟨by norm_num [abs_of_neg], ?_⟩
+      rw [hr]; intro h
+      have := h.1
+      norm_num [abs_of_neg] at this
+    · refine ⟨by norm_num [abs_of_neg], fun h => ?_⟩
+      have := h.2
+      norm_num at this
+  · have h2 : (2:ℝ) ≤ k := by exact_mod_cast hk
+    refine ⟨?_, fun h => ?_⟩
+    · rw [abs_of_nonneg (by linarith)]; intro h; linarith
+    · have := h.2; linarith
+
+/-- the complete gamma function is an instance: `G(a, 0) = Γ(a)` satisfies the recurrence at `x = 0`, with primitives
+    that return its values -/
+example : GammaRec (fun a _ => Real.Gamma a) 0 ∧
+    PrimsExact ⟨fun _ => 0, fun _ _ => 0, fun a _ => Real.Gamma a, fun _ _ => 0⟩ (fun a _ => Real.Gamma a) 0 := by
+  refine ⟨fun a => ?_, ⟨fun a _ => rfl, ?_, fun n hn => ?_⟩⟩
+  · by_cases ha : a = 0
+    · subst ha; simp [Real.Gamma_zero]
+    · simp only [neg_zero, Real.exp_zero, mul_one, Real.zero_rpow ha, add_zero]
+      exact Real.Gamma_add_one ha
+  · simp [Real.Gamma_zero]
+  · obtain ⟨m, rfl⟩ : ∃ m : ℕ, n = (m:ℤ) + 1 := ⟨(n - 1).toNat, by omega⟩
+    push_cast
+    rw [show (1:ℝ) - ((m:ℝ) + 1) = -(m:ℝ) by ring, Real.Gamma_neg_nat_eq_zero]
+    simp
+
+example (P : Prims ℝ) (G : ℝ → ℝ → ℝ) (x : ℝ) (hrec : GammaRec G x) (hP : PrimsExact P G x) :
+    incGamma P 3 (-(3/2:ℝ)) x = some (G (-(3/2:ℝ)) x) :=
+  incGamma_correct P G x hrec hP 2 _ (by norm_num) noSnap_neg_three_halves
+
+/-- TPLSimple (optional argument clamped to its admissible range `ν ≥ 1`) satisfies the hypotheses of
+    `history_integral_scale` -/
+example : (∀ (_ : ℕ) (a : ℝ), tplSimpleCorIntegral (max a 1) = ∫ h in Ioi (0:ℝ), tplSimpleCor (max a 1) h) ∧
+    ∀ (_ : ℕ) (a : ℝ), 0 < tplSimpleCorIntegral (max a 1) := by
+  have hp : ∀ a : ℝ, 0 < max a 1 := fun a => lt_of_lt_of_le one_pos (le_max_right a 1)
+  refine ⟨fun _ a => ?_, fun _ a => ?_⟩
+  · rw [integral_Ioi_eq_unit _ (fun x hx => tplSimpleCor_outside (max a 1) x (hp a).ne'
+        (by rw [abs_of_pos (by linarith)]; exact hx.le)), integral_tplSimple_unit _ (hp a)]
+    simp [tplSimpleCorIntegral]
+  · have := hp a
+    simp only [tplSimpleCorIntegral]; push_cast; positivity
+
 /-! ## the hypotheses of the implications above are satisfiable by non-trivial objects -/
 
 /-- an admissible parameter set: `var = 2`, `len_scale = 3`, `nugget = 0.5`, `rescale = 1.5` -/
